@@ -25,7 +25,7 @@ ASSUMPTIONS = [
     "PYTHONHASHSEED is fixed (0) in both the sequence process and the fresh baseline process",
     "for compiled ACLs only result equality under reuse is required (matching overwrites their scratch 'match' field)",
 ]
-FLOORS = {"quick": {"jobs_in_sequences": 60, "fresh_baselines": 30, "snapshots_compared": 180, "repeated_jobs": 6, "same_vendor_other_hw": 6, "acl_jobs": 6, "rule_mutating_logic_jobs": 4, "nested_dropped_row_jobs": 8, "reference_tracker_jobs": 6, "shared_compiled_acl_jobs": 12},
+FLOORS = {"quick": {"jobs_in_sequences": 60, "fresh_baselines": 30, "snapshots_compared": 180, "repeated_jobs": 6, "same_vendor_other_hw": 6, "acl_jobs": 6, "rule_mutating_logic_jobs": 4, "nested_dropped_row_jobs": 8, "reference_tracker_jobs": 6, "shared_compiled_acl_jobs": 36},
           "thorough": {"jobs_in_sequences": 2500, "fresh_baselines": 400, "snapshots_compared": 7500, "repeated_jobs": 200, "same_vendor_other_hw": 200, "acl_jobs": 200}}
 NPROC = {"quick": 8, "thorough": 16}
 FAMILIES = {"huawei": ["Huawei", "Huawei CE6870", "Huawei NE40E-X8", "Huawei Quidway S5300"], "huawei ce": ["Huawei CE0000", "Huawei NE40E-X8", "Huawei Quidway S5700"],
@@ -61,6 +61,18 @@ ACL_PAIRS = [
     [{"kind": "hand", "model": m, "old": "interface Ethernet1.100\n mtu 9000\n description a\n", "new": "interface Ethernet1.100\n", "acl": SHARED_ACL},
      {"kind": "hand", "model": m, "old": "interface Ethernet1\n mtu 9000\n description a\n", "new": "interface Ethernet1\n", "acl": SHARED_ACL}]
     for m in ("Cisco Catalyst 2960", "Arista", "Cisco Nexus")
+]
+# two overlapping rules of nearly equal specificity with different flags; job A's configuration reaches the broader rule first
+# through its negated form (an `undo ...` / `no ...` row), job B's removal is governed by the narrower, deletable rule
+ACL_PAIRS += [
+    [{"kind": "hand", "model": "Huawei CE6870", "old": "undo snmp-agent protocol source-status all-interface\nsnmp-agent\nsnmp-agent trap source LoopBack0\n",
+      "new": "snmp-agent\nsnmp-agent trap source LoopBack0\n", "acl": "snmp-agent ~ %cant_delete=1\nsnmp-agent trap ~\n"},
+     {"kind": "hand", "model": "Huawei CE6870", "old": "snmp-agent trap source LoopBack0\n", "new": "", "acl": "snmp-agent ~ %cant_delete=1\nsnmp-agent trap ~\n"}],
+    [{"kind": "hand", "model": "Cisco Catalyst 2960", "old": "no logging console\nlogging buffered 4096\nlogging host 10.0.0.1\n",
+      "new": "logging buffered 4096\nlogging host 10.0.0.1\n", "acl": "logging ~ %cant_delete=1\nlogging host ~\n"},
+     {"kind": "hand", "model": "Cisco Catalyst 2960", "old": "logging host 10.0.0.1\n", "new": "", "acl": "logging ~ %cant_delete=1\nlogging host ~\n"}],
+    [{"kind": "hand", "model": "Arista", "old": "no ntp authenticate\nntp server 10.0.0.1\n", "new": "ntp server 10.0.0.1\n", "acl": "ntp ~ %cant_delete=1\nntp server ~\n"},
+     {"kind": "hand", "model": "Arista", "old": "ntp server 10.0.0.1\n", "new": "", "acl": "ntp ~ %cant_delete=1\nntp server ~\n"}],
 ]
 # jobs run with a reference tracker (the configs of a referring and a defining generator order the patch) followed by a job of
 # the same hardware without one, whose rows occur in those configs
@@ -158,10 +170,17 @@ def plan(tier, seed):
         jc = [j for j in jobs if j.get("sample", "").startswith("juniper_comments") and not j.get("acl")]
         seq += [dict(rng.choice(jc)) for _ in range(2)]     # the vendor diff logic that writes into the matched rule's attributes
         rng.shuffle(seq)
+        if q % 2 == 0:
+            ar = [j for j in jobs if j.get("vk") == "aruba" and not j.get("acl")]
+            if ar:
+                seq.insert(0, dict(rng.choice(ar)))  # the only shipped rulebook with a top-level %context directive, compiled before the others
         # ordered pairs (A then B): a shared compiled ACL, and a reference tracker followed by a tracker-less job
-        pa, pr = rng.choice(ACL_PAIRS), rng.choice(REF_PAIRS)
+        pa, pr = rng.choice(ACL_PAIRS[:3]), rng.choice(REF_PAIRS)
         at = rng.randrange(len(seq) + 1)
         seq[at:at] = [dict(pa[0]), dict(pa[1])]
+        for pb in rng.sample(ACL_PAIRS[3:], 2):
+            at = rng.randrange(len(seq) + 1)
+            seq[at:at] = [dict(pb[0]), dict(pb[1])]
         seq += [dict(pr[0]), dict(pr[1])]
         specs.append({"mode": "seq", "tier": tier, "seed": seed, "seq": seq})
     return specs
@@ -232,7 +251,9 @@ def compute(hw, old, new, acl_text, synth=False, refs=None):
     try:
         diff, patch = _diff_and_patch(c01.Dev(hw), old, new, acl, None, False, ref_track=ref_track, rb=(synth_rb(hw) if synth else None))
         out["diff"] = norm_diff(diff)
-        out["cmds"] = [list(p) for p in fmt.cmd_paths(patch)]
+        cp = fmt.cmd_paths(patch)
+        out["cmds"] = [list(p) for p in cp]
+        out["cmd_contexts"] = [json.loads(json.dumps(c, default=str, sort_keys=True)) for c in cp.values()]  # what %ifcontext deploy rules look at
     except Exception as e:
         out["error"] = type(e).__name__
     try:
@@ -310,7 +331,7 @@ def run_seq(spec, acc):
         got = compute(hw, old, new, acl, synth, job.get("refs"))
         if job.get("refs"):
             acc.count("reference_tracker_jobs")
-        if job.get("acl") == SHARED_ACL:
+        if job.get("acl") and any(job["acl"] == pr[0]["acl"] for pr in ACL_PAIRS):
             acc.count("shared_compiled_acl_jobs")
         after = (plain(old), plain(new), c18.R_hash(c18.rb_signature(synth_rb(hw) if synth else rulebook.get_rulebook(hw))))
         acc.count("jobs_in_sequences")
